@@ -639,6 +639,14 @@ pub fn check_request(ctx: &mut Ctx, rng: &mut Rng, corpus: &Corpus, nodes: &[Nod
                         if ev != wh {
                             ctx.report.violation("model", "C14:lean-nested-composite-eviction-visible", format!("evicted {} vs whole {}", &ev[..ev.len().min(300)], &wh[..wh.len().min(300)]), case_json(&c, parts, "final"));
                         }
+                        // no terms node can be truncated: the complete segment model (cut + eviction) is exact
+                        if mt.is_empty() {
+                            let fu = ctx.model.ask(&format!("C14 mergedfull {} {}", rq, parts_to_lean(&corpus.docs, &mparts, &ranks)));
+                            ctx.report.count("model:full-segment-model-compared");
+                            if fu != wh {
+                                ctx.report.violation("model", "C14:lean-full-segment-model-not-exact", format!("full {} vs whole {}", &fu[..fu.len().min(300)], &wh[..wh.len().min(300)]), case_json(&c, parts, "final"));
+                            }
+                        }
                     }
                     // a single top-level terms ordered by _key (ascending or descending): exact under truncation (Lean decides applicability)
                     if nodes.len() == 1 && matches!(nodes[0].agg, Agg::Terms { .. }) && !mparts.is_empty() {
